@@ -28,7 +28,7 @@ func init() {
 		Level:     "other",
 		Technique: "term agreement and must-facts at the fee transfer call site; loop-shape analysis (one call per Alphabet key, no early exit); dominance of the registry write by the loop exit",
 		Explanation: "D1 the amount argument of the transferX call in PutNamed equals Ext(netmap,config,ContainerFee) when name == \"\" and ContainerFee + ContainerAliasFee when name != \"\" (the same predicate controls the alias registration), and is loop-invariant; " +
-			"D2 the call sits in a range loop over the committee keys with no exit other than exhaustion, to = CreateStandardAccount(element), from = the script hash of the owner parsed from the blob, details = 0x10‖id; D3 the registry write is dominated by the loop exit, no exception-catching frame encloses the calls, and balance.TransferX cannot return normally from a refused transfer (C01). D4 every normal return of netmap.SetConfig has stored the submitted value (a fee of 0 included). D5 the debit/credit leg rules of balance's transfer helper (C01) are re-run: payer = payee included.",
+			"D2 the call sits in a range loop over the committee keys with no exit other than exhaustion, to = CreateStandardAccount(element), from = the script hash of the owner parsed from the blob, details = 0x10‖id; D3 the registry write is dominated by the loop exit, no exception-catching frame encloses the calls, and balance.TransferX cannot return normally from a refused transfer (C01). D4 every normal return of netmap.SetConfig has stored the submitted value (a fee of 0 included). D5 the debit/credit leg rules of balance's transfer helper (C01) are re-run: payer = payee included. R7: every integer-to-bytes encoder of package deploy returns the output of neo-go's VM integer codec (the contracts read the deployed settings back as VM integers).",
 		NotCovered: "numeric exactness at the balance boundary is delegated to C01 (Balance ≥ amount guard) and VM atomicity.",
 		Run:        runC05,
 	})
@@ -598,6 +598,8 @@ func runC05(cx *CheckCtx) {
 	w := cx.W
 	// "the fee values configured in Netmap at that moment": a submitted setting is always stored
 	checkNetmapSetConfigAlways(cx, "fee-config")
+	// … and the values written at deployment are read back as the numbers that were configured
+	checkConfigIntCodec(cx, "fee-config")
 	// the fee transfers move exactly the amount: the legs of balance's transfer helper
 	balanceLegs(cx)
 	m := cx.method("container", "PutNamed")
